@@ -1028,7 +1028,7 @@ class Interp:
                 if name in c.staticmethods:
                     return SFunc(m, c.module, c, name=name)
                 if name in c.classmethods:
-                    return BoundMethod(o.cls, SFunc(m, c.module, c, name=name))
+                    return BoundMethod(o.cls, SFunc(m, c.module, c, name=name) if isinstance(m, ast.AST) else m)
                 if isinstance(m, ast.AST):
                     return BoundMethod(o, SFunc(m, c.module, c, name=name))
                 return BoundMethod(o, m)
